@@ -9,6 +9,7 @@ import (
 )
 
 var harnesses = map[string]func(){
+	"webh.H_HttpConc": webh.H_HttpConc,
 	"webh.H_Http": webh.H_Http,
 }
 
